@@ -117,10 +117,8 @@ func (c *channel) cancelPendingMsgs() {
 	defer c.responseMut.Unlock()
 	for msgID, router := range c.responseRouters {
 		router.c <- response{nid: c.node.ID(), err: streamDownErr}
-		// delete the router if we are only expecting a single reply message
-		if !router.streaming {
-			delete(c.responseRouters, msgID)
-		}
+		// the stream is gone, and with it the server side of any streaming call
+		delete(c.responseRouters, msgID)
 	}
 }
 
